@@ -98,6 +98,7 @@ theorem C04_direct_classification (o : Outcome) :
     chargedTo ⟨false⟩ o =
       match o with
       | .connectError _ => some .connect
+      | .sendError _ => some .read
       | .readError _ => some .read
       | .otherError => some .other
       | .response st _ => if st != 0 then some .status else none
@@ -106,6 +107,7 @@ theorem C04_direct_classification (o : Outcome) :
         else if st != 0 then some .status else none := by
   cases o with
   | connectError k => cases k <;> rfl
+  | sendError k => cases k <;> rfl
   | readError k => cases k <;> rfl
   | otherError => rfl
   | response st ra => rfl
@@ -122,6 +124,7 @@ theorem C04_proxied_classification (o : Outcome) :
     chargedTo ⟨true⟩ o = chargedTo ⟨false⟩ o := by
   cases o with
   | connectError k => cases k <;> rfl
+  | sendError k => cases k <;> rfl
   | readError k => cases k <;> rfl
   | otherError => rfl
   | response st ra => rfl
@@ -152,6 +155,7 @@ theorem C04_followed_le_redirect_budget (cfg : Cfg) (r : Retry) (rd : Bool) (q :
     simp [chargedTo, eventOf, respOf, hloc, Event.cat]
   | response st ra => rw [ho] at hloc; simp [Outcome.redirectLocation] at hloc
   | connectError k => rw [ho] at hloc; simp [Outcome.redirectLocation] at hloc
+  | sendError k => rw [ho] at hloc; simp [Outcome.redirectLocation] at hloc
   | readError k => rw [ho] at hloc; simp [Outcome.redirectLocation] at hloc
   | otherError => rw [ho] at hloc; simp [Outcome.redirectLocation] at hloc
 
@@ -210,6 +214,14 @@ theorem C04_nonidempotent_not_resent (cfg : Cfg) (r : Retry) (rd : Bool) (q : Rq
           simp only [nextRq, respOf, Option.some.injEq] at hmm
           subst hmm
           simp [hm] at hret
+        | sendError k =>
+          have hcat : errCat (translate cfg (.sendError k)) = .read := by
+            cases cfg with | mk p => cases p <;> cases k <;> rfl
+          obtain ⟨-, hx⟩ := herr _ rfl
+          obtain ⟨mm, hmm, hret⟩ := hx hcat
+          simp only [nextRq, respOf, Option.some.injEq] at hmm
+          subst hmm
+          simp [hm] at hret
         | connectError k => simp [reachedServer] at ho
         | otherError => simp [reachedServer] at ho
       | succ j =>
@@ -250,6 +262,33 @@ theorem C04_proxied_reset_read_budget :
       [.readError .reset, .response 200 none]).result = .maxRetry (.error (.plain .protocol)) := by
   decide
 
+/-- a failure while the request is being written — `socket.timeout`, a reset or a broken pipe raised by
+the socket's `send` once bytes have gone out — is a read error on every kind of pool (the request may
+have reached the server): it is charged to `read`, never to `connect` -/
+theorem C04_send_failure_charged_read (cfg : Cfg) (k : SendKind) :
+    chargedTo cfg (.sendError k) = some .read ∧ translate cfg (.sendError k) = .plain .protocol := by
+  cases cfg with | mk p => cases p <;> cases k <;> exact ⟨rfl, rfl⟩
+
+/-- for every Retry configuration (any counters, `total=False` as well), pool kind and `redirect`
+flag: when the method is outside `allowed_methods`, an attempt whose send failed is the only one —
+the request is not put on the wire again, no sleep, and `ProtocolError` is re-raised (not
+`MaxRetryError`).  (`C04_nonidempotent_not_resent` says the same for a send failure at any later
+position of the script.) -/
+theorem C04_send_failure_not_resent (cfg : Cfg) (r : Retry) (rd : Bool) (q : Rq) (i : Nat) (k : SendKind)
+    (rest : List Outcome) (hm : r.isMethodRetryable q.method = false) :
+    runAttempts cfg r rd q i (.sendError k :: rest) =
+      ⟨[⟨q, .sendError k, none⟩], .reraised (.plain .protocol)⟩ := by
+  have ht : translate cfg (.sendError k) = .plain .protocol := (C04_send_failure_charged_read cfg k).2
+  simp only [runAttempts, onError, ht, Retry.increment]
+  by_cases h : r.total = .disabled <;>
+    simp [h, isConnectionError, isReadError, ErrClass.isConnectTimeout, hm, Run.stop]
+
+example : (Retry.ofTotal (.num 3)).isMethodRetryable POST = false := by decide
+/-- … while an idempotent method is retried on the `read` budget: `read=1, connect=3` allows one retry -/
+example : (runAttempts ⟨false⟩ { Retry.default with connect := .num 3, read := .num 1 } true ⟨GET, 0, false⟩ 0
+    [.sendError .timeout, .sendError .timeout, .response 200 none]).result =
+      .maxRetry (.error (.plain .protocol)) := by decide
+
 /-! ## retries=False -/
 
 /-- `total is False`: the first error is re-raised (the translated exception itself, not
@@ -261,6 +300,7 @@ theorem C04_false_reraises (cfg : Cfg) (r : Retry) (rd : Bool) (q : Rq) (i : Nat
   | response st ra => simp [Outcome.isError] at ho
   | located st ra => simp [Outcome.isError] at ho
   | connectError k => simp [runAttempts, onError, Retry.increment, ht, Run.stop]
+  | sendError k => simp [runAttempts, onError, Retry.increment, ht, Run.stop]
   | readError k => simp [runAttempts, onError, Retry.increment, ht, Run.stop]
   | otherError => simp [runAttempts, onError, Retry.increment, ht, Run.stop]
 
@@ -660,6 +700,7 @@ theorem C04_exhaustion_surface (cfg : Cfg) (r : Retry) (rd : Bool) (q : Rq) (i :
         | response st ra => simp [eventOf, respOf] at he; split at he <;> cases he
         | located st ra => simp [eventOf, respOf] at he; split at he <;> cases he
         | connectError k => simp only [eventOf, respOf, Event.error.injEq] at he; exact ⟨rfl, he.symm⟩
+        | sendError k => simp only [eventOf, respOf, Event.error.injEq] at he; exact ⟨rfl, he.symm⟩
         | readError k => simp only [eventOf, respOf, Event.error.injEq] at he; exact ⟨rfl, he.symm⟩
         | otherError => simp only [eventOf, respOf, Event.error.injEq] at he; exact ⟨rfl, he.symm⟩
     | again r' hw hi h =>
